@@ -115,6 +115,10 @@ func c05Body(depth int) mc.Body {
 			}
 			m = append(m, c05Req{"tombstone on the root", "root-tombstone", true, root, "root", data.Points{tomb(1)}})
 			m = append(m, c05Req{"tombstone on the root inside a batch", "root-tombstone", true, root, "root", data.Points{{Type: "role", Value: 2, Time: tick()}, tomb(1)}})
+			// a node that would become the instance root (first placement below the root sentinel) and is born deleted:
+			// accepting it switches the instance to a root that does not exist for any reader
+			m = append(m, c05Req{"new node placed below the root sentinel with tombstone=1 (it would become a deleted instance root)", "root-tombstone", true, "Ynew", "root", data.Points{tomb(1), nt}})
+			m = append(m, c05Req{"an existing node placed below the root sentinel with tombstone=1", "root-tombstone", true, "A", "root", data.Points{tomb(1), nt}})
 			// any non-zero tombstone value deletes the root for at least one of the store's own readers
 			// (reads: ==1, rebroadcast path: odd / fractional, login path: !=0)
 			for _, v := range []float64{3, 2, 0.5, -1, -2} {
